@@ -43,8 +43,9 @@ func translateTx(t *testing.T) (map[string]*result, []*result) {
 func TestRefused(t *testing.T) {
 	m, _ := translateTx(t)
 	want := map[string]string{
-		"tx.Loop": "back edge", "tx.Div": "operation /", "tx.StoreParam": "not only loaded from", "tx.Alloc": "MakeSlice",
-		"tx.Sub": "Slice", "tx.Dyn": "has no translation", "tx.Recursive": "recursion", "tx.CallsLoop": "callee tx.Loop is unsupported",
+		"tx.Div": "operation /", "tx.StoreParam": "not only loaded from", "tx.Alloc": "MakeSlice",
+		"tx.Sub": "Slice", "tx.Dyn": "has no translation", "tx.Recursive": "recursion", "tx.CallsRefused": "callee tx.Div is unsupported",
+		"tx.FillLoop": "not only loaded from", "tx.Counter.Drain": "a loop in a method on a state record",
 	}
 	for n, why := range want {
 		r := m[n]
@@ -116,7 +117,11 @@ func TestDifferential(t *testing.T) {
 				exp = "Some " + paren(exp)
 			}
 		}
-		goals = append(goals, fmt.Sprintf("Goal %s %s = %s. Proof. vm_compute. reflexivity. Qed.", r.Coq, f[1], exp))
+		fuel := ""
+		if r.Fuel {
+			fuel = " 1200%nat" // more than any loop of testdata/tx runs on the grid
+		}
+		goals = append(goals, fmt.Sprintf("Goal %s%s %s = %s. Proof. vm_compute. reflexivity. Qed.", r.Coq, fuel, f[1], exp))
 		seen[f[0]]++
 		ncase++
 	}
